@@ -45,6 +45,8 @@ def main(tier):
     u_custom, u_default = Union(("i", P("int32")), ("f", P("float32"))), shapes.mk_union([P("int32"), P("float32")])
     u_custom3, u_default3 = Union(None, ("a", P("string")), ("b", P("date"))), shapes.mk_union([P("string"), P("date")], null=True)
     packed += shapes.pack([u_custom, u_default, u_custom3, u_default3], "Tga") + shapes.pack([u_default, u_custom, u_default3, u_custom3], "Tgb")
+    from am import N
+    packed += shapes.pack([N("GK", P("string")), N("GK", P("int32")), N("GK", P("uint8"))], "Gkm")
     chk.extra.update({"shapes": len(sh), "depth": d, "k": 1 if tier == "quick" else 2})
     roundtrip.run_packages(chk, packed, worker)
     chk.assumptions += ["arrays use the stand-in verif_ndarray.h (cpp.overrideArrayHeader); date text in C++ comes from the date.h stand-in: only its JSON kind (string) and round-trip identity are checked",
